@@ -414,6 +414,21 @@ impl Transaction for SecondaryTransaction {
                 id.rowset_id(),
             ));
         }
+        // Likewise the scan may predate a delete that committed before this transaction took the
+        // table lock: deleting the row again would acknowledge (and count) it a second time.
+        let already_deleted = (self.snapshot)
+            .get_dvs_of(self.table.table_id(), id.rowset_id())
+            .is_some_and(|dvs| {
+                dvs.iter().any(|dv_id| {
+                    (self.version.get_dv(self.table.table_id(), *dv_id)).contains(id.row_id())
+                })
+            });
+        if already_deleted {
+            return Err(super::TracedStorageError::not_found(
+                "row (deleted by a concurrent statement)",
+                id.row_id(),
+            ));
+        }
         self.delete_buffer.push(*id);
         Ok(())
     }
